@@ -78,7 +78,12 @@ func (a *Application) providerProxyHandler(w http.ResponseWriter, r *http.Reques
 
 	// The proxy needs to know which prefix to strip before forwarding.
 	// This mimics the behaviour of the main router for consistency.
+	// The prefix is the one the client used: /olla/lmstudio/... and /olla/lm_studio/... are aliases
+	// of lm-studio, and stripping the normalised spelling would leave them in the forwarded path.
 	providerPrefix := getProviderPrefix(providerType)
+	if segment := providerPathSegment(r.URL.Path); segment != "" {
+		providerPrefix = getProviderPrefix(segment)
+	}
 	ctx = context.WithValue(ctx, constants.ContextRoutePrefixKey, providerPrefix)
 	r = r.WithContext(ctx)
 
